@@ -349,7 +349,29 @@ def r2_pairing(ctx, rule, quals=None, entries=(ENTRY,), floor=12, skip_markov=Fa
                     'take the remaining budget', None, fn)
             continue
         evs = emission_events(ctx, qual, fn, emitters, closure)
+        # an emission after which no further emission of this activation is reachable needs no accounting here (the caller
+        # accounts for what the call returns): e.g. the straight-line honeyword walker
+        from ..cfg import CFG as _CFG
+        try:
+            cfg = _CFG(fn)
+            ev_nodes = {}
+            for st_, b_, i_, a_ in evs:
+                nd = cfg.node_of(st_)
+                if nd is not None:
+                    ev_nodes[id(st_)] = nd
+        except Exception:
+            cfg, ev_nodes = None, {}
         for st, block, i, amount in evs:
+            if cfg is not None and id(st) in ev_nodes:
+                me = ev_nodes[id(st)]
+                after = set()
+                for b_, lab in cfg.succ[me]:
+                    after |= cfg.reachable(b_)
+                if not (after & set(ev_nodes.values())):
+                    n += 1
+                    ctx.ok(rule, qual, 'after %s no further emission is reachable in this activation: nothing to account for here'
+                           % U(st)[:50], {'event': U(st)[:80]})
+                    continue
             if skip_markov:
                 mod_ = ctx.repo.modules[qual.partition('::')[0]]
                 from ..core import path_conditions as _pc
